@@ -40,6 +40,28 @@ NEEDS = {
  'C18_1': 'TaskListT clear() after the list has grown: stale _last makes a later emplace() corrupt the free list / write out of range',
  'C18_2': '>= 128 states: SerialBuffer one bit (byte) short of what save() writes',
  'C18_3': 'TaskListT emplace() of the last free slot writes _items[CAPACITY]',
+ 'C01_2': 'replayTransition() on an active replica: the destination is entered without the old state ever being exited (deepEnter instead of deepChangeToRequested)',
+ 'C01_3': 'transition between two different states observed from inside enter(): the registry still names the state that has just exited',
+ 'C01_4': 'a callback that uses the type-based control.isActive<T>(): answers for the calling state instead of T',
+ 'C05_3': 'postReact of the active state (machine with >= 2 sub-states) receives a copy of the event',
+ 'C05_4': 'a state that defines preReact/postReact itself: preReact runs twice, postReact never',
+ 'C05_5': 'a state that defines preUpdate/postUpdate itself: preUpdate runs twice, postUpdate never',
+ 'C07_3': 'guard-redirected activation: guards see pending and current transitions swapped (constructor arguments of the GuardControl)',
+ 'C07_4': "activation: redirect accepted, second redirect vetoed: enter() sees the vetoed request's payload as current transition",
+ 'C07_5': 'guard-redirected activation with transition history: previousTransition() records the pending, not the applied transition (same patch as C11_2)',
+ 'C10_3': 'task with a successor removed / fired, its slot reused as the new last task: stale forward link, iteration runs into a cycle',
+ 'C12_3': 'serial buffers of >= 2 bytes (128..255 states) that share a byte: operator != answers "all bytes differ"',
+ 'C12_4': 'second save() into a used buffer: StreamBufferT::clear() clears a copy (fill() takes its array by value), images are OR-ed',
+ 'C12_5': '129..255 states, saver in a state >= 128: bitWidth gives 7 bits (same patch as C13_2)',
+ 'C13_3': 'read<W>() of a field that starts mid-byte and ends inside the same byte: bits of the next field leak into the result',
+ 'C13_4': 'bitWidth(v) for v in 16..31 returns 4',
+ 'C16_3': 'non-verbose logging, root head that defines only one of planSucceeded / planFailed, failing plan: record decided by the wrong member',
+ 'C16_4': 'control.succeed(id) / succeed<T>() for another state: the task-status record names the caller',
+ 'C17_2': 'plans with a payload type, task appended without payload, machine constructed over non-zero memory: task reports a payload',
+ 'C17_3': 'states with data members: the copy constructor of the machine copies only the core, the copy gets fresh state objects',
+ 'C20_3': 'BitArrayT::set() with CAPACITY % 8 in 1..3 / 5..7: padding bits left set / top members left unset',
+ 'C20_4': 'BitArrayT::empty() with CAPACITY a multiple of 8 and all members in the last 8 indices: reports empty',
+ 'C20_5': 'DynamicArrayT += other on a non-empty array: elements written over the old ones',
 }
 def sh(cmd, **kw):
     return subprocess.run(cmd, shell=True, stdout=subprocess.PIPE, stderr=subprocess.STDOUT, text=True, **kw)
